@@ -26,7 +26,7 @@ META = {
                    "fragment, value marked used), the stop happens exactly at the first step at which e's evaluation is "
                    "complete (continuation back to what it was, exactly one more value on the value stack) and the reported "
                    "value is that pushed value; target_evaluation_completes_or_fails -- such an evaluation either fails or "
-                   "reaches that stop. A parenthesised target never stops (paren_target_never_stops: the genuine defect), "
+                   "reaches that stop. A parenthesised target never stops (Example paren_target_runs_to_the_end: the genuine defect), "
                    "so the repaired eval_up_to looks through parentheses."),
     "level_note": ("PARTIAL: the completion theorem covers targets whose evaluation uses no loop, call, match, break/continue/"
                    "return (those are covered by the differential check and the dbg search only), is stated from the step at "
@@ -104,11 +104,12 @@ def targets(src, block_item):
     """[(start, end, kind, offset)] for every expression node of the top-level block."""
     nodes, syms = [], []
     collect(read_sexp(block_item), nodes, syms)
+    srcb = src.encode()         # positions are BYTE offsets
     out = []
     for (s, e, k) in nodes:
         off = None
         for o in range(s, e):
-            if src[o] in " \n":
+            if srcb[o] in b" \n" or srcb[o] >= 0x80:
                 continue
             if any(a <= o < b for (a, b) in syms):
                 continue
@@ -144,15 +145,22 @@ HAND = [
 
 
 def with_caret(src, off):
-    """Insert a `// ^` comment line under the line that contains offset `off` (needs column >= 2)."""
-    ls = src.rfind("\n", 0, off) + 1
+    """Insert a `// ^` comment line under the line that contains BYTE offset `off` (needs byte column >= 2)."""
+    b = src.encode()
+    ls = b.rfind(b"\n", 0, off) + 1
     col = off - ls
     if col < 2:
         return None
-    le = src.find("\n", off)
+    le = b.find(b"\n", off)
     if le < 0:
         return None
-    return src[:le + 1] + "//" + " " * (col - 2) + "^\n" + src[le + 1:]
+    return (b[:le + 1] + b"//" + b" " * (col - 2) + b"^\n" + b[le + 1:]).decode()
+
+
+def wrap_dbg(src, a, b):
+    """The program with the BYTE span [a, b) wrapped in dbg(...)."""
+    sb = src.encode()
+    return (sb[:a] + b"dbg(" + sb[a:b] + b")" + sb[b:]).decode()
 
 
 def cli_many(exe, jobs):
@@ -177,7 +185,7 @@ DBG_RE = re.compile(r"//-> (.*)")
 
 
 def norm(v):
-    v = re.sub(r"<(closure|fun)[^>]*>", "<fn>", v)
+    v = re.sub(r"<(closure|fun)[^>]*>", "<fn>", v).replace(" (constructor)", "")
     return v.replace("<closure>", "<fn>").replace("<fun>", "<fn>").replace("<builtin>", "<fn>")
 
 
@@ -202,7 +210,7 @@ def upto_and_dbg(exe, keep, hook):
     if hook:
         r1 = oracle.batch(exe, [{"op": "eval_up_to", "src": s, "offset": off, "tick_limit": 100000}
                                 for (s, items, a, b, k, off) in keep], timeout=900)
-        r2 = oracle.batch(exe, [{"op": "run", "src": s[:a] + "dbg(" + s[a:b] + ")" + s[b:], "tick_limit": 100000}
+        r2 = oracle.batch(exe, [{"op": "run", "src": wrap_dbg(s, a, b), "tick_limit": 100000}
                                 for (s, items, a, b, k, off) in keep], timeout=900)
         upto, dbg = [], []
         for x in r1:
@@ -219,7 +227,7 @@ def upto_and_dbg(exe, keep, hook):
             dbg.append(x.get("stderr", "") if "outcomes" in x else "error: " + str(x)[:200])
         return upto, dbg
     jobs_upto = [(["reftest-eval-up-to"], with_caret(s, off)) for (s, items, a, b, k, off) in keep]
-    jobs_dbg = [(["run"], s[:a] + "dbg(" + s[a:b] + ")" + s[b:]) for (s, items, a, b, k, off) in keep]
+    jobs_dbg = [(["run"], wrap_dbg(s, a, b)) for (s, items, a, b, k, off) in keep]
     r_upto = cli_many(exe, jobs_upto)
     r_dbg = cli_many(exe, jobs_dbg)
     return [parse_upto(r[1], r[2]) for r in r_upto], [r[2] for r in r_dbg]
@@ -232,13 +240,13 @@ def confirm_cli(exe, rep):
         return None
     a, b = rep["span"]
     s = rep["input"]
-    r = cli_many(exe, [(["reftest-eval-up-to"], cs), (["run"], s[:a] + "dbg(" + s[a:b] + ")" + s[b:])])
+    r = cli_many(exe, [(["reftest-eval-up-to"], cs), (["run"], wrap_dbg(s, a, b))])
     kind, val = parse_upto(r[0][1], r[0][2])
     m = DBG_RE.search(r[1][2])
     return {"eval_up_to": [kind, val], "dbg": m.group(1) if m else None}
 
 
-def examine(ctx, exe, mdl, srcs, label, hook):
+def examine(ctx, exe, mdl, srcs, label, hook, item_prefix="(block", use_model=True):
     sx = oracle.batch(exe, [{"op": "sexp", "src": s, "positions": True} for s in srcs], timeout=600)
     keep = []      # (src, item_lines, start, end, kind, offset)
     for s, r in zip(srcs, sx):
@@ -246,7 +254,7 @@ def examine(ctx, exe, mdl, srcs, label, hook):
         if not items or r.get("errors"):
             ctx.stat(label + " unparsed")
             continue
-        blocks = [it for it in items if it.startswith("(block")]
+        blocks = [it for it in items if it.startswith(item_prefix)]
         if len(blocks) != 1:
             ctx.stat(label + " not-one-block")
             continue
@@ -299,6 +307,8 @@ def examine(ctx, exe, mdl, srcs, label, hook):
         else:
             ctx.stat(label + " not-wrappable")
         # (b) the model
+        if not use_model:
+            continue
         ml = model[i] if i < len(model) else "<missing>"
         if ml.startswith("unsupported"):
             ctx.stat(label + " outside-model")
@@ -341,17 +351,26 @@ def run(ctx):
     rng = ctx.rng
     hook = have_hook(exe)
     ctx.stat("hook eval_up_to available" if hook else "hook eval_up_to missing: CLI only (fewer programs)")
-    n = (400 if ctx.thorough else 60) if hook else (40 if ctx.thorough else 4)
+    n = (300 if ctx.thorough else 8) if hook else (40 if ctx.thorough else 3)
     progs = [gen_program(rng, 6) for _ in range(n)]
     examine(ctx, exe, mdl, HAND, "hand", hook)
     examine(ctx, exe, mdl, progs, "random", hook)
+    if hook:
+        # the same kind of program with the statements in a `test` instead of a top-level block (search only: the
+        # model covers top-level expressions/blocks; `garden run` does not run tests, so no CLI confirmation of dbg)
+        tests = []
+        for _ in range(60 if ctx.thorough else 3):
+            g = gen_program(rng, 5)
+            i = g.index("{\n    ") if g.startswith("{") else g.index("\n{\n    ") + 1
+            tests.append(g[:i] + "test t " + g[i:])
+        examine(ctx, exe, mdl, tests, "test-item", hook, item_prefix="(test", use_model=False)
 
 
 def replay(ctx, rp):
     exe = ctx.impl()
     src, off = rp["input"], rp["offset"]
     a, b = rp["span"]
-    r = cli_many(exe, [(["reftest-eval-up-to"], with_caret(src, off)), (["run"], src[:a] + "dbg(" + src[a:b] + ")" + src[b:])])
+    r = cli_many(exe, [(["reftest-eval-up-to"], with_caret(src, off)), (["run"], wrap_dbg(src, a, b))])
     print("eval-up-to:", r[0][1][-300:], r[0][2][-300:])
     print("dbg run   :", r[1][2][-300:])
     return 0
